@@ -506,6 +506,18 @@ fn eval_ops_inner(req: &str) -> ImplOut {
         Op::Delete(i) => pre_ids.get(*i as usize).copied(),
         _ => None,
     };
+    // a defined name that spells an existing sheet in another case (finding F32c): the name machinery
+    // finds the sheet ignoring case, the formula parser does not, so a rename does not follow
+    let case_variant_name = pre_dn.iter().any(|d| {
+        let fu = d.formula.to_uppercase();
+        pre_names.iter().any(|sh| {
+            let q = sh.replace('\'', "''");
+            fu.contains(&q.to_uppercase()) && !d.formula.contains(&q)
+        })
+    });
+    if case_variant_name {
+        out = out.tag("name-with-case-variant-prefix");
+    }
     // 1. every pre-existing cell: value and displayed references
     for po in &pre_obs {
         if Some(po.sheet_id) == deleted_id {
@@ -524,7 +536,11 @@ fn eval_ops_inner(req: &str) -> ImplOut {
         }
         if po.value != qo.value && !excluded && !capture && deleted_id.is_none() {
             out = out.fail(
-                &format!("c17:{opname}:value-changed"),
+                &(if case_variant_name && opname == "rename" {
+                    "c17:rename:case-variant-prefix-in-name".to_string()
+                } else {
+                    format!("c17:{opname}:value-changed")
+                }),
                 &format!("sheet id {} R{}C{} {:?}: {} -> {} (now {:?})", po.sheet_id, po.row, po.col, po.formula, po.value, qo.value, qo.formula),
             );
         }
@@ -802,8 +818,8 @@ fn gen_new_name(rng: &mut Rng, sp: &Spec, i: usize) -> String {
         1 => "bad[name]".into(),
         2 => "a".repeat(32),
         3 => "with:colon".into(),
-        4 => sp.sheets[(i + 1) % sp.sheets.len()].to_uppercase(), // taken by another sheet (other case)
-        5 => sp.sheets.get(i).map(|s| s.to_lowercase()).unwrap_or("q".into()), // case variant of itself
+        4 => sp.sheets[(i + 1) % sp.sheets.len()].to_ascii_uppercase(), // taken by another sheet (other ASCII case)
+        5 => sp.sheets.get(i).map(|s| s.to_ascii_lowercase()).unwrap_or("q".into()), // ASCII case variant of itself
         6 => sp.sheets.get(i).cloned().unwrap_or("q".into()),      // same name
         7 => rng.pick(GHOSTS).to_string(),                          // captures ghost references
         8 => "z".repeat(31),
